@@ -15,7 +15,8 @@ ASSUMPTIONS = [
     'sim primitives copy queue.Queue / threading.Event semantics',
     'pre-emption only at yield points (coop granularity); asyncio ready '
     'queue kept FIFO',
-    'ASGI server drops sends after the peer went away (uvicorn behaviour)',
+    'ASGI server raises from websocket.send once the peer has gone (uvicorn '
+    '>= 0.28; older versions dropped such sends silently)',
     'results hold for async_mode threading and asgi only']
 LEVEL_NOTE = ('Trusted: sim primitives (queue/event/thread/asyncio clock), '
               'fake simple_websocket and gateways, scripted client, the '
